@@ -354,7 +354,7 @@ def variant_of(cases, outs):
     elif got == srt:
         sorted_ = True
     else:
-        raise core.CheckFailure(f"make_patch probe: neither library order nor sorted by path: {p}")
+        sorted_ = False        # neither shape: the model will disagree and the round trip decides
     return {"v_esc": esc, "v_strseq": strseq, "v_sorted": sorted_}
 
 
@@ -529,7 +529,7 @@ def evaluate(ctx, cases, outs, v, tag=""):
                          f"third-party jsonpatch.make_patch({json.dumps(c['old'])}, {json.dumps(c['new'])}) applied in "
                          f"its own order does not give the target: ops={json.dumps(outs[i]['lib'])}"))
         else:
-            viol.append((i, "C13/patch/make_patch-sorted-by-path",
+            viol.append((i, "C13/patch/make_patch-operation-order",
                          f"apply_patch(old, make_patch(old,new)) != new although the library's operation order works: "
                          f"old={json.dumps(c['old'])} new={json.dumps(c['new'])} patch={json.dumps(outs[i]['patch'])} "
                          f"applied={json.dumps(outs[i]['applied'])}"))
